@@ -157,6 +157,37 @@ func buildConstTables(pkg *ssa.Package) map[*ssa.Global]*constTable {
 										continue
 									}
 									delete(cands, g)
+								case *ssa.Index:
+									// an element of the loaded array value: a read
+									if r.X != ssa.Value(x) {
+										delete(cands, g)
+									}
+								case *ssa.Store:
+									// the whole table copied into a local that is only read (the copy a range over an array walks)
+									cell, isCell := r.Addr.(*ssa.Alloc)
+									if r.Val != ssa.Value(x) || !isCell {
+										delete(cands, g)
+										continue
+									}
+									for _, cref := range *cell.Referrers() {
+										switch cr := cref.(type) {
+										case *ssa.Store:
+											if cr != r {
+												delete(cands, g)
+											}
+										case *ssa.IndexAddr:
+											for _, ref2 := range *cr.Referrers() {
+												if ld2, isLd2 := ref2.(*ssa.UnOp); !isLd2 || ld2.Op != token.MUL {
+													if _, isDbg := ref2.(*ssa.DebugRef); !isDbg {
+														delete(cands, g)
+													}
+												}
+											}
+										case *ssa.DebugRef:
+										default:
+											delete(cands, g)
+										}
+									}
 								case *ssa.IndexAddr:
 									// an element of a slice table: only ever loaded
 									if r.X != ssa.Value(x) {
